@@ -44,3 +44,13 @@ Definition k_rtl (s : list Z) (w : Z) (sg : bool) : list Z :=
     | None => [0]
     end
   else [-2].
+
+(* a whole design (several domains, registers, comb process): [code; step index] ++ stdout ++ exception text;
+   f7 / bf select the semantics of the unrepaired code for findings F7 and C20-brace-fill *)
+Definition k_design (f7 bf : bool) (D : design) (steps : list tstep) : list Z :=
+  if design_ok D then
+    match run_design f7 bf D steps with
+    | (Cont out, idx) => [0; idx] ++ packl out
+    | (Stop out c msg, idx) => [c; idx] ++ packl out ++ packl msg
+    end
+  else [-2].
